@@ -42,4 +42,17 @@ SCENARIOS = {
         "expect": {"both": {"gets": ["a", "a.leaf", "a.left", "b", "b.leaf", "b.right"], "sets": [], "dels": []}},
         "reorder": ["target.py", "left_mod.py"],
     },
+    # the target file defines a function and a class named (and shaped) like the ones an imported module uses internally
+    "target_defines_same_names_as_import": {
+        "files": {
+            "target.py": "import helper_mod\n\ndef run(a):\n    return a.target_side\n\nclass Rec:\n    def __init__(self, a):\n        self.t = a.target_rec\n\n"
+                         "def main(x):\n    return helper_mod.go(x)\n\ndef build(x):\n    return helper_mod.make(x)\n\ndef own(x):\n    run(x)\n    return Rec(x)\n",
+            "helper_mod.py": "def run(a):\n    return a.helper_side\n\nclass Rec:\n    def __init__(self, a):\n        self.h = a.helper_rec\n\n"
+                             "def go(a):\n    return run(a)\n\ndef make(a):\n    return Rec(a)\n",
+        },
+        "expect": {"main": {"gets": ["x", "x.helper_side"], "sets": [], "dels": []},
+                   "build": {"gets": ["x", "x.helper_rec"], "sets": ["@ReturnValue.h"], "dels": []},
+                   "own": {"gets": ["x", "x.target_rec", "x.target_side"], "sets": ["@ReturnValue.t"], "dels": []}},
+        "reorder": ["target.py"],
+    },
 }
